@@ -378,12 +378,13 @@ pub fn generate(rs: u64, focus: &str) -> Trace {
     let nthreads = if crate::gen::thorough() { 2 + g.rng.weighted(&[35, 35, 30]) } else { 2 + g.rng.weighted(&[55, 30, 15]) };
     let mut threads: Vec<Vec<Op>> = vec![vec![]; nthreads];
     let scenario = match focus {
-        "C04" => g.rng.weighted(&[5, 5, 0, 10, 0, 10, 70, 0]),
-        "C15" => g.rng.weighted(&[5, 5, 5, 10, 0, 30, 35, 10]),
-        "C09" => g.rng.weighted(&[5, 75, 0, 5, 0, 15, 0, 0]),
-        "C10" => g.rng.weighted(&[0, 0, 10, 0, 0, 20, 0, 70]),
-        "C11" => g.rng.weighted(&[0, 5, 60, 0, 0, 20, 0, 15]),
-        _ => g.rng.weighted(&[16, 16, 12, 16, 8, 14, 9, 9]),
+        "C04" => g.rng.weighted(&[5, 5, 0, 10, 0, 10, 70, 0, 0]),
+        "C15" => g.rng.weighted(&[5, 5, 5, 10, 0, 30, 35, 10, 0]),
+        "C18" => g.rng.weighted(&[0, 0, 0, 0, 35, 15, 0, 0, 50]),
+        "C09" => g.rng.weighted(&[5, 75, 0, 5, 0, 15, 0, 0, 0]),
+        "C10" => g.rng.weighted(&[0, 0, 10, 0, 0, 20, 0, 70, 0]),
+        "C11" => g.rng.weighted(&[0, 5, 60, 0, 0, 20, 0, 15, 0]),
+        _ => g.rng.weighted(&[15, 15, 11, 15, 8, 13, 8, 8, 7]),
     };
     let known: Vec<EvSpec> = g.model.events.values().cloned().collect();
     let retr: Vec<B32> = g.model.retrievable.iter().copied().collect();
@@ -543,6 +544,23 @@ pub fn generate(rs: u64, focus: &str) -> Trace {
             }
             if g.rng.chance(1, 2) {
                 threads[0].push(Op::Get(target.id));
+            }
+        }
+        8 => {
+            // one event stored, removed and stored again by different threads
+            let e = if g.rng.chance(1, 2) { g.new_event() } else { g.new_version() };
+            threads[0].push(Op::Store(e.clone()));
+            threads[1].push(Op::Remove(e.id));
+            threads[1].push(Op::Store(e.clone()));
+            if g.rng.chance(1, 2) {
+                threads[0].push(Op::Has(e.id));
+            }
+            if nthreads > 2 {
+                threads[2].push(Op::Remove(e.id));
+                threads[2].push(Op::Get(e.id));
+                if g.rng.chance(1, 2) {
+                    threads[2].push(Op::Store(e.clone()));
+                }
             }
         }
         _ => {
@@ -1096,6 +1114,25 @@ fn state_invariants(store: &Store, base: &Model, recs: &[OpRecord], enc: &BTreeM
         if ids.len() > 1 {
             out.push(("C09", format!("address {} holds {} retrievable events", a.label(), ids.len())));
             break;
+        }
+    }
+    // C18: an explicitly removed event that is not retrievable must be accepted again: the last
+    // submission of it (begun after every removal of it had returned) was refused as duplicate
+    for x in &removed_explicitly {
+        if has(x) {
+            continue;
+        }
+        let last_remove_ret = recs.iter().filter(|r| matches!(&r.op, Op::Remove(id) if id == x)).map(|r| r.ret).max().unwrap_or(0);
+        let last_store = recs.iter().filter(|r| matches!(&r.op, Op::Store(e) if e.id == *x)).max_by_key(|r| r.invoke);
+        if let Some(ls) = last_store {
+            let after_everything = recs.iter().filter(|r| match &r.op {
+                Op::Store(e) => e.id == *x && (r.thread, r.idx) != (ls.thread, ls.idx),
+                Op::Remove(id) => id == x,
+                _ => false,
+            }).all(|r| r.ret < ls.invoke);
+            if after_everything && last_remove_ret < ls.invoke && matches!(ls.out, Outcome::Store(StoreOutcome::Duplicate)) {
+                out.push(("C18", format!("{} was removed, is not retrievable, and its resubmission was refused as duplicate", short(x))));
+            }
         }
     }
     // accepted deletion requests
